@@ -248,6 +248,17 @@ def C04(tier, seed):
     return chk
 
 
+def C05(tier, seed):
+    chk = Check('C05', tier, seed)
+    be = [0, 2, 3] + ([4] if tier == 'thorough' else [])
+    flt = lambda c: c.started and len(c.deferred) + len(c.queue) <= 2
+    oracle_units(chk, ['D', 'Da'], be, 'C05', proj=STD, check_queue=True, opts={'queue_api': True, 'has_deferred': True},
+                 conf_filter=flt, bfs_depth=5, max_confs=40, timeout=90, unwind=12, strats=['n', 'nkG', 'pk'])
+    chk.bounds.update({'deferred_events_pending_in_pre_state': '0..2, distinct concrete payloads (their position in the prefix script)'})
+    chk.assumptions.append('C05: guards of Defer-action rows are logged in an uncompared class and held true in the step while an event they deferred is pending (the deferring configuration persists); back releases action-deferred events after the next handled event, backmp11 after the next processed event - both satisfy the statement under this assumption')
+    return chk
+
+
 BP_TYPES = {0: 'Triv<1> (5 bytes)', 1: 'Triv<44>', 2: 'Triv<52> (56 bytes: fills the inline buffer)', 3: 'Triv<53> (60 bytes: heap)',
             4: 'TrivA<8,16> (alignment 16: heap)', 5: 'TrivA<40,64> (alignment 64: heap)', 6: 'Triv<196> (200 bytes: heap)',
             7: 'NonTriv inline (user copy/move/dtor, self pointer)', 8: 'NonTriv 100 bytes (heap)', 9: 'ThrowMove (move not noexcept: heap)'}
@@ -280,4 +291,4 @@ def C20(tier, seed):
     return chk
 
 
-PROPS = {f.__name__: f for f in (C01, C02, C03, C04, C06, C07, C08, C09, C10, C11, C13, C17, C20)}
+PROPS = {f.__name__: f for f in (C01, C02, C03, C04, C05, C06, C07, C08, C09, C10, C11, C13, C17, C20)}
